@@ -57,3 +57,104 @@ pub fn ref_varint_get(b: &[u8]) -> Option<(u64, usize)> {
     }
     Some((v, n))
 }
+
+use std::future::Future;
+use std::pin::Pin;
+use std::task::{Context, Poll, Waker};
+use wtransport_proto::bytes as wbytes;
+use wtransport_proto::ids::{QStreamId, SessionId, StreamId};
+
+/// an arbitrary valid session id (client-initiated bidirectional stream id = 4*q, q < 2^60)
+pub fn any_session_id() -> SessionId {
+    let q: u64 = kani::any();
+    kani::assume(q <= (1u64 << 60) - 1);
+    let v = q << 2;
+    SessionId::try_from_session_stream(StreamId::new(VarInt::try_from_u64(v).unwrap())).unwrap()
+}
+
+/// stub for `<bytes::IoReadError as From<std::io::Error>>::from` (io::Error drop glue/repr blows CBMC up;
+/// the real impl is checked on concrete ErrorKinds in c15_io_error_mapping)
+pub fn io_read_err_stub(e: std::io::Error) -> wbytes::IoReadError {
+    core::mem::forget(e);
+    wbytes::IoReadError::NotConnected
+}
+pub fn io_write_err_stub(e: std::io::Error) -> wbytes::IoWriteError {
+    core::mem::forget(e);
+    wbytes::IoWriteError::NotConnected
+}
+
+pub fn poll_once<F: Future>(fut: F) -> Option<F::Output> {
+    let mut fut = std::pin::pin!(fut);
+    let mut cx = Context::from_waker(Waker::noop());
+    match fut.as_mut().poll(&mut cx) {
+        Poll::Ready(v) => Some(v),
+        Poll::Pending => None,
+    }
+}
+
+/// byte-wise model source: delivers `data[..len]` one byte per poll_read, then EOF; never Pending.
+/// (chunking / Pending independence is decided per state machine by the L1 inductive harnesses)
+pub struct ByteReader<const N: usize> {
+    pub data: [u8; N],
+    pub len: usize,
+    pub off: usize,
+}
+impl<const N: usize> wbytes::AsyncRead for ByteReader<N> {
+    fn poll_read(self: Pin<&mut Self>, _cx: &mut Context<'_>, buf: &mut [u8]) -> Poll<std::io::Result<usize>> {
+        let this = self.get_mut();
+        if this.off >= this.len || buf.is_empty() {
+            return Poll::Ready(Ok(0));
+        }
+        buf[0] = this.data[this.off];
+        this.off += 1;
+        Poll::Ready(Ok(1))
+    }
+}
+
+/// byte-wise model sink: accepts one byte per poll_write into a fixed array; never Pending
+pub struct ByteWriter<const N: usize> {
+    pub data: [u8; N],
+    pub off: usize,
+}
+impl<const N: usize> ByteWriter<N> {
+    pub fn new() -> Self {
+        Self { data: [0; N], off: 0 }
+    }
+}
+impl<const N: usize> wbytes::AsyncWrite for ByteWriter<N> {
+    fn poll_write(self: Pin<&mut Self>, _cx: &mut Context<'_>, buf: &[u8]) -> Poll<std::io::Result<usize>> {
+        let this = self.get_mut();
+        if buf.is_empty() {
+            return Poll::Ready(Ok(0));
+        }
+        assert!(this.off < N, "model sink capacity exceeded (harness bound)");
+        this.data[this.off] = buf[0];
+        this.off += 1;
+        Poll::Ready(Ok(1))
+    }
+}
+
+/// true iff a[..n] == b[..n]
+pub fn eq_prefix(a: &[u8], b: &[u8], n: usize) -> bool {
+    let mut i = 0;
+    while i < n {
+        if a[i] != b[i] {
+            return false;
+        }
+        i += 1;
+    }
+    true
+}
+
+/// GREASE ids 0x1f*n + 0x21 with n < 2^16 (1-, 2- and 4-byte varints), or the largest 8-byte one
+pub fn any_grease_id() -> VarInt {
+    let big: bool = kani::any();
+    if big {
+        // largest n with 0x1f*n+0x21 <= 2^62-1
+        const NMAX: u64 = (VMAX - 0x21) / 0x1f;
+        VarInt::try_from_u64(0x1f * NMAX + 0x21).unwrap()
+    } else {
+        let n: u16 = kani::any();
+        VarInt::try_from_u64(0x1f * (n as u64) + 0x21).unwrap()
+    }
+}
